@@ -1322,6 +1322,24 @@ def _sort_impl(values, axis, direction):
   vals = np.empty(a.shape, dtype=object)
   idxs = np.empty(a.shape, dtype=object)
   memo = _ctx.cur().__dict__.setdefault('_sort_memo', {}) if _ctx.active() else {}
+  if _ctx.active() and getattr(_ctx.cur(), 'sort_mode', None) == 'abstract' and \
+      not _bi_all(P.lift(v).is_const for v in a.flat):
+    # Contract instead of a path oracle: the result is SOME non-decreasing (non-increasing)
+    # rearrangement; each entry lies between the smallest and the largest input of its row.
+    c = _ctx.cur()
+    c.axiom('sort: abstract contract (ordered output, entries between min and max of the row)')
+    for o in np.ndindex(*a.shape[:-1]):
+      row = [P.lift(v) for v in a[o]]
+      fresh = [P.var(E.fresh_name('sorted') + '[%d]' % j) for j in builtin_range(len(row))]
+      lo, hi = E.pmin(*row), E.pmax(*row)
+      for j, f in enumerate(fresh):
+        c.assume((f >= lo) & (f <= hi), 'sort contract: within the row range')
+        if j:
+          c.assume(fresh[j - 1] <= f if direction == 'ASCENDING' else fresh[j - 1] >= f,
+                   'sort contract: ordered')
+        vals[o + (j,)] = f
+        idxs[o + (j,)] = 0
+    return (Tensor(np.moveaxis(vals, -1, ax), x.dtype), None)
   for o in np.ndindex(*a.shape[:-1]):
     row = [P.lift(v) for v in a[o]]
     key = (tuple(row), direction)
